@@ -12,7 +12,7 @@ pairwise interior-disjointness (separating-axis test on the exact coordinates), 
 -/
 namespace C16
 open Model Model.C16 Proto
-open C15 (area2 cross2)
+open C15 (area2R cross2)
 
 /-- directed edges of a closed index/point cycle -/
 def edgesOf {α : Type} (poly : List α) : List (α × α) :=
@@ -34,7 +34,7 @@ def sgn (x : Rat) : Int := if x > 0 then 1 else if x < 0 then -1 else 0
 
 /-- closed segments `[a,b]` and `[c,d]` have a common point -/
 def segsTouch (a b c d : V2 Rat) : Bool :=
-  let o1 := sgn (area2 a b c); let o2 := sgn (area2 a b d); let o3 := sgn (area2 c d a); let o4 := sgn (area2 c d b)
+  let o1 := sgn (area2R a b c); let o2 := sgn (area2R a b d); let o3 := sgn (area2R c d a); let o4 := sgn (area2R c d b)
   let onSeg (p q r : V2 Rat) : Bool :=   -- r collinear with pq assumed; r within the box of pq
     C15.rmin p.x q.x ≤ r.x && r.x ≤ C15.rmax p.x q.x && C15.rmin p.y q.y ≤ r.y && r.y ≤ C15.rmax p.y q.y
   if o1 != o2 && o3 != o4 && o1 * o2 ≤ 0 && o3 * o4 ≤ 0 && !(o1 == 0 && o2 == 0) then true
@@ -52,9 +52,9 @@ def isSimple (poly : Array (V2 Rat)) : Bool :=
       let c := poly.getD j ⟨0,0⟩; let d := poly.getD ((j + 1) % n) ⟨0,0⟩
       if j = i + 1 then
         -- adjacent: b = c; the next edge must not fold back onto this one
-        !(area2 a b d == 0 && (b.sub a).dot (d.sub b) < 0)
+        !(area2R a b d == 0 && (b.sub a).dot (d.sub b) < 0)
       else if (j + 1) % n = i then
-        !(area2 c d b == 0 && (d.sub c).dot (b.sub d) < 0)
+        !(area2R c d b == 0 && (d.sub c).dot (b.sub d) < 0)
       else
         (C15.rmax a.x b.x < C15.rmin c.x d.x || C15.rmax c.x d.x < C15.rmin a.x b.x ||
          C15.rmax a.y b.y < C15.rmin c.y d.y || C15.rmax c.y d.y < C15.rmin a.y b.y) || !(segsTouch a b c d))
@@ -72,7 +72,7 @@ def boxesApart (a b : Rat × Rat × Rat × Rat) : Bool :=
 /-- interiors of two convex counter-clockwise polygons (positive area) are disjoint ⇔ some edge line separates them
 (bounding boxes first: a cheap sufficient test) -/
 def convexInteriorsDisjoint (sl : Rat) (p q : List (V2 Rat)) : Bool :=
-  let sep (p q : List (V2 Rat)) : Bool := (edgesOf p).any fun e => q.all fun v => decide (area2 e.1 e.2 v ≤ sl)
+  let sep (p q : List (V2 Rat)) : Bool := (edgesOf p).any fun e => q.all fun v => decide (area2R e.1 e.2 v ≤ sl)
   sep p q || sep q p
 
 /-- all pairs of a list of (polygon, bbox) have disjoint interiors -/
@@ -84,7 +84,7 @@ def allDisjoint (sl : Rat) (l : List (List (V2 Rat))) : Bool :=
 
 /-- convex, counter-clockwise, positive area: every vertex on the closed left of every edge -/
 def isConvexCcw (sl : Rat) (p : List (V2 Rat)) : Bool :=
-  decide (shoelace2 p > 0) && ((edgesOf p).all fun e => p.all fun v => decide (-sl ≤ area2 e.1 e.2 v))
+  decide (shoelace2 p > 0) && ((edgesOf p).all fun e => p.all fun v => decide (-sl ≤ area2R e.1 e.2 v))
 
 /-- rounding slack for sign decisions on the exact coordinates: 0 for lattice inputs (the implementation's cross products
 are then exact), else `1e-12 · diam²` -/
@@ -108,7 +108,7 @@ def nearCollinearRun (poly : Array (V2 Rat)) : Bool :=
   let n := poly.size
   (List.range n).any fun i =>
     let a := poly.getD i ⟨0,0⟩; let b := poly.getD ((i + 1) % n) ⟨0,0⟩; let c := poly.getD ((i + 2) % n) ⟨0,0⟩
-    decide (rabs (area2 a b c) ≤ (C15.ninf (b.sub a) * C15.ninf (c.sub b)) / 1000000000)
+    decide (rabs (area2R a b c) ≤ (C15.ninf (b.sub a) * C15.ninf (c.sub b)) / 1000000000)
 
 def oracleTri (poly : Array (V2 Rat)) (out : List String) : String :=
   let n := poly.size
@@ -127,7 +127,7 @@ def oracleTri (poly : Array (V2 Rat)) (out : List String) : String :=
     | none => "fail unparsable-output"
     | some tris =>
       if n < 3 then "fail some-for-fewer-than-3-vertices" else
-      if simple && A < 0 then s!"fail accepted-clockwise-polygon area2={A}" else
+      if simple && A < 0 then s!"fail accepted-clockwise-polygon area2R={A}" else
       if simple && A == 0 then "fail accepted-zero-area-polygon" else
       if tris.size + 2 ≠ n then s!"fail triangle-count {tris.size}" else
       if tris.any (fun (a, b, c) => a ≥ n || b ≥ n || c ≥ n) then "fail index-out-of-range" else
